@@ -88,7 +88,7 @@ def run(ctx: Context) -> None:
     ctx.rule('R03.4', "a variable on no grid is refused: get_grid_kind raises on its fall-through exit and ravel consults it; move_dimensions_to_end raises for absent dimensions", floor=4)
     ctx.rule('R03.5', "the linear dimension is chosen by axis, else by name, else the last dimension", floor=1)
     ctx.rule('R03.6', "an automatically chosen dimension name is never one that already exists", floor=2)
-    ctx.rule('R03.7', "no other refusal: wind_dimension, ravel_dimensions and splice_tuple never raise on their own; move_dimensions_to_end and get_grid_kind raise only as stated (winding arbitrary linear data always succeeds)", floor=5)
+    ctx.rule('R03.7', "no other refusal: wind_dimension and splice_tuple never raise on their own; ravel_dimensions only refuses a linear dimension name that collides with a remaining dimension; move_dimensions_to_end and get_grid_kind raise only as stated (winding arbitrary linear data always succeeds)", floor=5)
     ctx.rule('R03.9', "helpers the flattening rests on: CF grid dimensions are read from the coordinate variables; every exit of move_dimensions_to_end has the requested dimensions last, in the requested order", floor=5)
     from . import infra as _infra
     _infra.cf_grid_dimensions(ctx, 'R03.9')
@@ -97,7 +97,7 @@ def run(ctx: Context) -> None:
     _adopt(ctx, 'R03.8', ['topology'], floor=30)
     ctx.assume("numpy reshape in C order merges/splits trailing axes row-major; xarray transpose only permutes axes")
 
-    for q, allowed in ((f"{UTILS}.wind_dimension", 0), (f"{UTILS}.ravel_dimensions", 0), (f"{UTILS}.splice_tuple", 0),
+    for q, allowed in ((f"{UTILS}.wind_dimension", 0), (f"{UTILS}.ravel_dimensions", 1), (f"{UTILS}.splice_tuple", 0),
                        (f"{UTILS}.move_dimensions_to_end", 1), (f"{DIMCONV}.get_grid_kind", 1), (f"{DIMCONV}.ravel", 0), (f"{DIMCONV}.wind", 0)):
         f = ctx.func(q)
         rs = [n for n in ast.walk(f.node) if isinstance(n, ast.Raise)]
@@ -229,6 +229,26 @@ def run(ctx: Context) -> None:
                 ok_shape = ok_head and ok_tail
                 ctx.check('R03.1', ok_shape and explicit, "the merged length is written out as the product of the moved dimensions' lengths: numpy cannot infer a -1 when an accompanying dimension is empty "
                           "(a time dimension without records)", rv, rs, construct=f"merged length = {norm_text(tail.elts[0]) if isinstance(tail, ast.Tuple) and tail.elts else '?'}")
+            # a linear dimension named like a dimension that stays cannot be told apart from it again (wind finds the first by name)
+            from .common import guards as _g03
+            ld_p = rv.params[2] if len(rv.params) > 2 else None
+            clash = [n for n in walk_no_nested(rv.node) if isinstance(n, ast.Raise) and ld_p is not None
+                     and any(pol and t.startswith(f"{ld_p} in ") for t, pol in _g03(rv, n))]
+            ok_clash = False
+            for n in clash:
+                for t, pol in _g03(rv, n):
+                    if pol and t.startswith(f"{ld_p} in "):
+                        coll = t[len(f"{ld_p} in "):]
+                        # the collection is the dimensions that stay: moved.dims[:-len(dimensions)] or the moved array's dims
+                        for st_ in walk_no_nested(rv.node):
+                            if isinstance(st_, ast.Assign) and norm_text(st_.targets[0]) == coll:
+                                v_ = flow.resolve(st_.value)
+                                if isinstance(v_, ast.Subscript) and isinstance(v_.slice, ast.Slice) and v_.slice.lower is None and is_neg_len(v_.slice.upper) \
+                                        and isinstance(v_.value, ast.Attribute) and v_.value.attr == 'dims':
+                                    ok_clash = True
+            ctx.check('R03.1', ok_clash, "a caller's linear dimension name that is already the name of a dimension that stays is refused (two dimensions of one name: "
+                      "wind would look the name up, find the first, and reshape the wrong axis)", rv, clash[0] if clash else rs,
+                      construct=f"refusals guarded by `{ld_p} in <remaining dims>`: {len(clash)}")
             ctx.check('R03.1', ok_shape, "new shape = moved.shape[:-len(dimensions)] + (merged length,): exactly the moved dimensions are merged", rv, rs,
                       construct=f"new shape = {norm_text(shape) if shape is not None else '?'}")
         dparts = _flatten_add(flow.resolve(dims))
@@ -483,6 +503,7 @@ VARIANTS = [
     V('C03', 'values-cast', _U, "    new_data = data_array.values.reshape(new_shape)\n    return xarray.DataArray(data=new_data, dims=new_dims)", "    new_data = data_array.values.astype(float).reshape(new_shape)\n    return xarray.DataArray(data=new_data, dims=new_dims)", 'R03.2'),
     V('C03', 'splice-different-index', _U, "    new_shape = splice_tuple(data_array.shape, dimension_index, sizes)", "    new_shape = splice_tuple(data_array.shape, len(data_array.shape) - 1, sizes)", 'R03.1'),
     V('C03', 'splice-off-by-one', _U, "    return t[:index] + tuple(values) + t[index:][1:]", "    return t[:index] + tuple(values) + t[index:][2:]", 'R03.1'),
+    V('C03', 'colliding-linear-name-accepted', 'src/emsarray/utils.py', "    elif linear_dimension in existing_dims:\n", "    elif linear_dimension in ():\n", 'R03.1'),
     V('C03', 'merged-length-inferred', 'src/emsarray/utils.py', "    new_shape = data_array.shape[:-len(dimensions)] + (linear_size,)", "    new_shape = data_array.shape[:-len(dimensions)] + (-1,)", 'R03.1'),
     V('C03', 'merged-length-one-dimension-short', 'src/emsarray/utils.py', "    linear_size = int(numpy.prod(data_array.shape[-len(dimensions):]))", "    linear_size = int(numpy.prod(data_array.shape[-len(dimensions) + 1:]))", 'R03.1'),
     V('C03', 'sizes-reversed', _B, "        sizes = list(self.grid_shape[grid_kind])", "        sizes = list(reversed(self.grid_shape[grid_kind]))", 'R03.1'),
